@@ -67,6 +67,11 @@ where
         if guarded(|| x.to_raw_string())? != text {
             return Err(format!("{}: to_raw_form_string() != {}", name, text));
         }
+        // the formatted dual hash exposes both texts (whatever its exact layout)
+        let shown = guarded(|| format!("{}", x))?;
+        if !shown.contains(&text) || !shown.contains(&rt::format(log, &n1, &n2)) {
+            return Err(format!("{}: Display output {} does not contain the raw text {} and the normalized text", name, shown, text));
+        }
         // normalised part
         let n = x.as_norm();
         if !n.valid() || !n.ref_valid() || n.log() != log || n.bh1() != &n1[..] || n.bh2() != &n2[..] {
